@@ -9,8 +9,11 @@
 //!   is counted and swallowed so that the campaign keeps exploring; everything else prints
 //!   `VERIF-PANIC sig=… loc=… msg=…` and aborts (libFuzzer then saves the input as a crash).
 //!   `VERIF_FUZZ_STRICT=1` tolerates nothing. An iteration that burns `VERIF_FUZZ_CPU_LIMIT` (default 10)
-//!   seconds of *CPU time* prints `VERIF-SLOW sig=C10:timeout:<target> cpu_s=…` and aborts as well (the
+//!   seconds of *user CPU time* prints `VERIF-SLOW sig=C10:timeout:<target> cpu_s=…` and aborts as well (the
 //!   wall-clock `-timeout` of libFuzzer only serves as a hang detector on a loaded machine).
+//! * a global allocator wrapper: one allocation request above `VERIF_FUZZ_ALLOC_LIMIT_MB` (default 256) MB
+//!   while an input is executed prints `VERIF-ALLOC sig=C10:oom:<innermost SDK frame> size=…` and aborts
+//!   (libFuzzer's own `-malloc_limit_mb` hook turned out to be inert in this tool chain).
 //! * `ctx()`: a fresh `c2pa::Context` per call (no network fetches, 1 MB decompression limit).
 //!
 //! Panic signature: the panic location if it lies in the SDK (`sdk/src/...`); otherwise (a dependency or
@@ -18,10 +21,78 @@
 //! `dep:<crate-version>/<file>` / `std:<file>`.
 
 use std::{
+    alloc::{GlobalAlloc, Layout, System},
+    cell::Cell,
     collections::{BTreeMap, BTreeSet},
     panic::{self, AssertUnwindSafe},
-    sync::{Mutex, OnceLock},
+    sync::{
+        atomic::{AtomicBool, AtomicUsize, Ordering},
+        Mutex, OnceLock,
+    },
 };
+
+// ------------------------------------------------------------------------------------------------
+// allocation-size oracle (libFuzzer's -malloc_limit_mb hook is not effective in this tool chain)
+// ------------------------------------------------------------------------------------------------
+
+/// Every Rust allocation of the process goes through here (and on to malloc, i.e. to ASan's allocator in the
+/// sanitizer build). While an input is being executed (`IN_INPUT`), a single request above `ALLOC_LIMIT`
+/// bytes is a failure of the "never allocates far beyond the input size" half of the property: the signature
+/// is `C10:oom:<innermost SDK frame>`; known ones are counted and the allocation proceeds.
+pub struct LimitAlloc;
+
+static ALLOC_LIMIT: AtomicUsize = AtomicUsize::new(256 << 20);
+static IN_INPUT: AtomicBool = AtomicBool::new(false);
+thread_local! {
+    static IN_HOOK: Cell<bool> = const { Cell::new(false) };
+}
+
+#[cold]
+fn big_allocation(size: usize) {
+    if !IN_INPUT.load(Ordering::Relaxed) {
+        return;
+    }
+    let reentrant = IN_HOOK.try_with(|h| h.replace(true)).unwrap_or(true);
+    if reentrant {
+        return;
+    }
+    let site = innermost_sdk_frame().unwrap_or_else(|| TARGET.get().copied().unwrap_or("?").to_string());
+    let sig = format!("C10:oom:{site}");
+    if allowed(&sig) {
+        count(&format!("tolerated:{sig}"));
+        let _ = IN_HOOK.try_with(|h| h.set(false));
+        return;
+    }
+    eprintln!("VERIF-ALLOC sig={sig} size={size}");
+    std::process::abort();
+}
+
+unsafe impl GlobalAlloc for LimitAlloc {
+    unsafe fn alloc(&self, l: Layout) -> *mut u8 {
+        if l.size() > ALLOC_LIMIT.load(Ordering::Relaxed) {
+            big_allocation(l.size());
+        }
+        System.alloc(l)
+    }
+    unsafe fn alloc_zeroed(&self, l: Layout) -> *mut u8 {
+        if l.size() > ALLOC_LIMIT.load(Ordering::Relaxed) {
+            big_allocation(l.size());
+        }
+        System.alloc_zeroed(l)
+    }
+    unsafe fn realloc(&self, p: *mut u8, l: Layout, new_size: usize) -> *mut u8 {
+        if new_size > ALLOC_LIMIT.load(Ordering::Relaxed) {
+            big_allocation(new_size);
+        }
+        System.realloc(p, l, new_size)
+    }
+    unsafe fn dealloc(&self, p: *mut u8, l: Layout) {
+        System.dealloc(p, l)
+    }
+}
+
+#[global_allocator]
+static GLOBAL: LimitAlloc = LimitAlloc;
 
 pub const SETTINGS: &str = r#"{
   "verify": { "remote_manifest_fetch": false, "ocsp_fetch": false },
@@ -234,18 +305,22 @@ pub fn init(target: &'static str) {
     // force the lazy tables now so that they are not attributed to the first input
     let _ = formats();
     let _ = settings();
+    if let Some(mb) = std::env::var("VERIF_FUZZ_ALLOC_LIMIT_MB").ok().and_then(|v| v.parse::<usize>().ok()) {
+        ALLOC_LIMIT.store(mb << 20, Ordering::Relaxed);
+    }
     let _ = CPU_LIMIT.set(std::env::var("VERIF_FUZZ_CPU_LIMIT").ok().and_then(|v| v.parse::<f64>().ok()).unwrap_or(10.0));
 }
 
 static CPU_LIMIT: OnceLock<f64> = OnceLock::new();
 
-/// CPU seconds consumed by this process so far (wall-clock time is useless on a shared machine).
+/// User-mode CPU seconds consumed by this process so far. Wall-clock time is useless on a shared machine and
+/// kernel time (page faults of the sanitizer's shadow memory) inflates with contention, so neither is used.
 fn cpu_now() -> f64 {
-    let mut ts = libc::timespec { tv_sec: 0, tv_nsec: 0 };
+    let mut ru: libc::rusage = unsafe { std::mem::zeroed() };
     unsafe {
-        libc::clock_gettime(libc::CLOCK_PROCESS_CPUTIME_ID, &mut ts);
+        libc::getrusage(libc::RUSAGE_SELF, &mut ru);
     }
-    ts.tv_sec as f64 + ts.tv_nsec as f64 * 1e-9
+    ru.ru_utime.tv_sec as f64 + ru.ru_utime.tv_usec as f64 * 1e-6
 }
 
 /// In-target oracles panic with `"<ID>-ORACLE: sig=<signature> :: <details>"`.
@@ -284,7 +359,9 @@ pub fn guard<F: FnOnce()>(f: F) {
         *l = None;
     }
     let t0 = cpu_now();
+    IN_INPUT.store(true, Ordering::Relaxed);
     let r = panic::catch_unwind(AssertUnwindSafe(f));
+    IN_INPUT.store(false, Ordering::Relaxed);
     let used = cpu_now() - t0;
     if used >= *CPU_LIMIT.get().unwrap_or(&10.0) {
         // the "never runs unboundedly long" half of the property, judged on CPU time of this one input
